@@ -928,8 +928,13 @@ LINK_TREES = [
     ("file-link", [("F", "a.py"), ("L", "test_l.py", "file", []), ("L", "notes.txt", "file", [])]),
     ("dir-link", [("F", "a.py"), ("L", "dl", "dir", [("F", "c.py"), ("D", "deep", [("F", "d.py")]), ("F", "test_c.py")])]),
     ("dir-link", [("F", "a.py"), ("D", "sub", [("L", "pkg", "dir", [("F", "e.py")]), ("F", "b.py")])]),
-    ("dangling", [("F", "a.py"), ("L", "gone.py", "dangling", []), ("D", "sub", [("F", "b.py")])]),
-    ("dangling", [("F", "a.py"), ("D", "sub", [("F", "b.py"), ("L", "gone.pyi", "dangling", [])])]),
+    # dangling links are skipped (C18-G3, repaired): the other files are analysed as if the link were not there
+    ("none", [("F", "a.py"), ("L", "gone.py", "dangling", []), ("D", "sub", [("F", "b.py")])]),
+    ("none", [("F", "a.py"), ("D", "sub", [("F", "b.py"), ("L", "gone.pyi", "dangling", [])])]),
+    ("none", [("F", "a.py"), ("L", "gone.py", "dangling", []), ("L", "gone2.pyi", "dangling", []),
+              ("D", "sub", [("L", "gone3.py", "dangling", []), ("F", "b.py"), ("D", "deep", [("L", "g4.py", "dangling", []), ("F", "c.py")])]),
+              ("D", "onlygone", [("L", "g.py", "dangling", [])])]),
+    ("none", [("L", "a_gone.py", "dangling", []), ("F", "z.py"), ("L", "zz_gone.py", "dangling", [])]),
     ("none", [("F", "a.py"), ("L", "gone.txt", "dangling", []), ("L", "test_gone.py", "dangling", []), ("L", ".hid.py", "dangling", [])]),
     ("dir-link", [("F", "a.py"), ("L", "mod.py", "dir", [("F", "x.py")])]),
 ]
@@ -1006,8 +1011,12 @@ def cli_errors(ck, stats):
         f.write(PY_BODY)
     with open(os.path.join(base, "proj", "docs", "notes.txt"), "w") as f:
         f.write("text\n")
+    os.makedirs(os.path.join(base, "proj", "links"))
+    os.symlink(os.path.join(base, "nothing_here"), os.path.join(base, "proj", "links", "gone.py"))
     for tg, why in ((["nonexistent"], "a target that does not exist"), (["a.py", "nonexistent/x.py"], "one of two targets does not exist"),
-                    (["docs"], "a directory without Python files"), (["docs/notes.txt"], "a file that is no Python file")):
+                    (["docs"], "a directory without Python files"), (["docs/notes.txt"], "a file that is no Python file"),
+                    (["links/gone.py"], "a dangling symbolic link named as a target"), (["a.py", "links/gone.py"], "one of two targets is a dangling link"),
+                    (["links"], "a directory that holds nothing but a dangling link")):
         shutil.rmtree(os.path.join(base, "proj", ".pyscn"), ignore_errors=True)
         rc, so, se = lib.pyscn(["analyze", "--json", "--no-open", "--select", "complexity"] + tg, os.path.join(base, "proj"))
         stats["evaluations"] += 1
